@@ -7,5 +7,6 @@ var _ = time.Second
 // props lists the per-property driver configuration. Everything not set
 // takes the defaults in cfgFor.
 var props = map[string]propCfg{
+	"C03": {Assumptions: []string{"harness/ref decoder/encoder implement the pointer rules of capnproto.org/encoding.html (self-tested: Encode∘Decode identity, strict validation of own output)"}},
 	"C13": {Assumptions: []string{"ref.Pack/ref.Unpack (written from the packing spec, self-tested against the repository's TestPack vectors) are correct"}},
 }
